@@ -318,13 +318,13 @@ class Cpt(ImmittanceMixin):
                 field += 1
 
         for arg in self.args:
+            if arg is None:
+                continue
             if zero:
                 # FIXME: zeroing all args doesn't make much sense.
                 # Perhaps only zero first arg?
                 arg = 0
             elif subs_dict is not None:
-                if arg is None:
-                    continue
                 # Perform substitutions
                 arg = str(expr(arg).subs(subs_dict))
 
